@@ -9,6 +9,15 @@ eigenvectors of the model's K~) and with tr K~ - sum S; loss_prog is evaluated f
 subspaces (random, PCA's, the regression's, rotations of PCovR's own) against numpy and must
 not fall below PCovR's.  Monotonicity in the mixing and the two end points are checked on the
 implementation.
+
+Extension round 3 (helpers: harness/pcovr_c04.py, model additions: coq/Model/PCovRC04.v):
+every grid point is compared with the Ky Fan optimum tr K~ - sum of the k largest eigenvalues, K~
+built from an INDEPENDENT reference of the regression (numpy on the data passed to fit); new
+families: input representations (integer dtypes, memory layouts, nested lists, power-of-two
+scales), truncated solvers (arpack / randomized / auto, also mid-size and > 500 rows), and
+histories of one estimator object (set_params / refit on changing data) compared with a fresh
+estimator and with the model of the last step; feature-space fits are tied to the mixed loss of
+their OWN subspace X C^-1/2 V (ownq_prog).
 """
 import warnings
 
@@ -16,6 +25,7 @@ import numpy as np
 
 from harness import common as C
 from harness import pcovr_common as P
+from harness import pcovr_c04 as X4
 
 MAX_REPORTS = 25          # replay files written per run (a broken tree fails hundreds of cases)
 
@@ -46,25 +56,27 @@ def mixed(Q, X, Yh, a):
     return a * proj_loss(Q, X) + (1 - a) * proj_loss(Q, Yh)
 
 
-def impl_losses(est, ds, Yh):
+def impl_losses(est, ds, Yh, Ym=None):
     """(l_X, l_Yhat, l_Y) of a fitted estimator, from its public transform / inverse_transform /
     predict: squared errors of recovering X, the regressed targets and Y from the latent space."""
     X = ds["X"]
+    Xo = X4.obs_ds(ds)["X"]
     with warnings.catch_warnings():
         warnings.simplefilter("ignore")
-        T = est.transform(X)
+        T = np.asarray(est.transform(Xo), dtype=float)
         xr = est.inverse_transform(T)
         yp = np.asarray(est.predict(T=T)).reshape(len(X), -1)
     lx = float(np.sum((X - xr) ** 2))
     coef = np.linalg.lstsq(T, Yh, rcond=None)[0]
     ly = float(np.sum((Yh - T @ coef) ** 2))
-    return lx, ly, float(np.sum((ds["Y"] - yp) ** 2)), T
+    Yref = ds["Y"] if Ym is None else np.asarray(Ym, dtype=float).reshape(len(X), -1)
+    return lx, ly, float(np.sum((Yref - yp) ** 2)), T
 
 
 def competitors(g, ds, Yh, V, k):
     n = ds["n"]
     X = ds["X"]
-    out = []
+    out = [("optimum", V)]
     for _ in range(3):
         out.append(("random", orth(g.normal(size=(n, k)))))
     U = np.linalg.svd(X, full_matrices=True)[0]
@@ -76,39 +88,84 @@ def competitors(g, ds, Yh, V, k):
 
 
 def case_replay(ds, cfg, extra=None):
-    d = dict(dataset=P.jsonable({k: ds[k] for k in ("family", "n", "m", "p", "q", "X", "Y", "Xn", "Yn", "centred")}),
-             config=cfg)
+    d = dict(dataset=X4.ds_to_json(ds), config=cfg)
     if extra:
         d.update(P.jsonable(extra))
     return d
 
 
-def fit(ds, cfg):
+def fit(ds, cfg, est=None, cache=None):
     try:
-        est, Ym, Yh, W = P.fit_impl(ds, cfg)
+        est, Ym, Yh, W = X4.fit_impl(ds, cfg, est=est, cache=cache)
     except Exception as e:                      # noqa
         return dict(error=type(e).__name__, error_msg=str(e)[:200])
-    return dict(est=est, Ym=Ym, Yh=Yh, W=W)
+    msg, why = X4.regression_message(ds, cfg, Yh)
+    return dict(est=est, Ym=Ym, Yh=Yh, W=W, reg_msg=msg, reg_ref=why)
 
 
-def grid_oracle(ds, base, grid):
-    """Monotonicity on the implementation.  Returns (message or None, per-point data, skipped)."""
+def tolerances(ds, cfg):
+    """(relative tolerance of the loss comparisons, is the decomposition truncated).  The full
+    solver is LAPACK (1e-9 of the total sum of squares, as before); ARPACK runs to tol 1e-12 and
+    the randomized range finder is exact only up to its power iterations: 1e-6."""
+    trunc = X4.resolved_solver(cfg, ds) in X4.TRUNCATED
+    return (1e-6 if trunc else 1e-9), trunc
+
+
+def grid_oracle(ds, base, grid, stats=None):
+    """Optimality at every grid point and monotonicity along the grid, on the implementation.
+    Returns (message or None, per-point data, skipped)."""
     pts = []
+    rtol, trunc = tolerances(ds, base)
+    Yh0 = None
+    sample = P.is_sample(ds, base)
+    k = base["k"]
+    if trunc:
+        # the regression does not depend on the mixing / solver: take it from a full-solver fit and
+        # keep the truncated solvers inside the numerically clean rank of the matrix they decompose
+        r0 = fit(ds, dict(base, a=0.5, solver="full"))
+        if "error" in r0:
+            return "fit raised %s with svd_solver=full: %s" % (r0["error"], r0["error_msg"]), pts, 0
+        Yh0 = r0["Yh"]
+    skipped = 0
     for a in grid:
         cfg = dict(base, a=float(a))
+        if trunc:
+            mn0 = P.model_np(ds["X"], Yh0, float(a))
+            S0, _ = P.top_eig(mn0["Kt"] if sample else mn0["Ct"])
+            if X4.solver_gate(S0, k):
+                skipped += 1
+                if stats is not None:
+                    stats["points_skipped_truncated_beyond_clean_rank"] = stats.get("points_skipped_truncated_beyond_clean_rank", 0) + 1
+                continue
         r = fit(ds, cfg)
         if "error" in r:
             return "fit raised %s at mixing %g: %s" % (r["error"], a, r["error_msg"]), pts, 0
         rg = P.regressor_gate(ds["X"], r["W"], r["Yh"])
         if rg:
             return None, [], rg
-        lx, ly, lY, T = impl_losses(r["est"], ds, r["Yh"])
+        if r["reg_msg"]:
+            return r["reg_msg"], pts, skipped
+        if stats is not None and r["reg_ref"] is None:
+            stats["regression_reference_checked"] = stats.get("regression_reference_checked", 0) + 1
+        lx, ly, lY, T = impl_losses(r["est"], ds, r["Yh"], r["Ym"])
         mn = P.model_np(ds["X"], r["Yh"], float(a))
         Sk, _ = P.top_eig(mn["Kt"])
-        pts.append(dict(a=float(a), lx=lx, ly=ly, lY=lY, gap=P.rel_gap(Sk, base["k"]), rec=r, Sk=Sk))
+        # Ky Fan: the optimum over ALL k-dimensional subspaces is tr K~ - (k largest eigenvalues)
+        own = float(a) * lx + (1 - float(a)) * ly
+        best = float(np.trace(mn["Kt"]) - np.sum(Sk[:k]))
+        tot = 1e-300 + float(a) * float(np.sum(ds["X"] ** 2)) + (1 - float(a)) * float(np.sum(r["Yh"] ** 2))
+        if stats is not None:
+            stats["optimum_checked"] = stats.get("optimum_checked", 0) + 1
+            key = "max_excess_over_optimum_truncated" if trunc else "max_excess_over_optimum_full"
+            stats[key] = max(stats.get(key, 0.0), (own - best) / tot)
+        if own > best + rtol * tot:
+            return ("mixed loss of PCovR's latent space %.12g exceeds the optimum over all %d-dimensional subspaces "
+                    "%.12g at mixing %g (excess %.3g of the total sum of squares)" % (own, k, best, a, (own - best) / tot)), pts, skipped
+        pts.append(dict(a=float(a), lx=lx, ly=ly, lY=lY, gap=P.rel_gap(Sk, k), rec=r, Sk=Sk))
+    if not pts:
+        return None, pts, skipped
     scale = 1 + float(np.sum(ds["X"] ** 2)) + float(np.sum(pts[0]["rec"]["Yh"] ** 2))
-    tol = 1e-9 * scale
-    skipped = 0
+    tol = rtol * scale
     for u, v in zip(pts, pts[1:]):
         if min(u["gap"], v["gap"]) < 1e-6:
             skipped += 1
@@ -157,7 +214,15 @@ def limits_oracle(ds, base, pts):
         syh = np.linalg.svd(Yh, compute_uv=False)
         rank = int(np.sum(syh > 1e-9 * max(1.0, syh[0])))
         exact_ls = np.abs(X.T @ (ds["Y"] - Yh)).max() <= 1e-9 * (1 + np.abs(X).max() * np.abs(ds["Y"]).max() * ds["n"])
-        if exact_ls and k >= rank and not np.any((syh ** 2 > P.TOL / 10) & (syh ** 2 < P.TOL * 1e3)):
+        # components beyond the rank of K~ = Yh Yh^T have eigenvalues that are rounding noise (about
+        # 1e-16 |Yh|^2); `tol` is absolute, so for data of large scale that noise can exceed it and the
+        # noise direction is retained: such points are skipped (and counted)
+        Sk0 = p0[0].get("Sk")
+        if Sk0 is None:
+            Sk0 = np.linalg.svd(Yh @ Yh.T, compute_uv=False)
+        if k >= rank and np.any(np.asarray(Sk0)[rank:k] > P.TOL / 10):
+            done["regression_skipped_noise_above_tol"] = 1
+        elif exact_ls and k >= rank and not np.any((syh ** 2 > P.TOL / 10) & (syh ** 2 < P.TOL * 1e3)):
             lr = LinearRegression(fit_intercept=False).fit(X, ds["Y"])
             want = lr.predict(X).reshape(ds["n"], -1)
             with warnings.catch_warnings():
@@ -169,13 +234,73 @@ def limits_oracle(ds, base, pts):
     return None, done
 
 
+def history_step_message(ds, cfg, r, fresh):
+    """C04 on the state a RE-USED estimator object is in after this step: the regression it worked
+    with is the regression of the data of THIS fit, its latent space attains the optimum of the
+    mixed objective for the data of this fit, and the end points are PCA / the regression.
+    Returns (message or None, found_input)."""
+    if "error" in r:
+        if "error" in fresh:
+            return None, True
+        return "fit on a re-used estimator object raised %s (%s) where a fresh estimator fits" % (r["error"], r["error_msg"]), True
+    if "error" in fresh:
+        return None, True
+    if P.regressor_gate(ds["X"], r["W"], r["Yh"]):
+        return None, True
+    if r["reg_msg"]:
+        return r["reg_msg"], True
+    ref, _ = X4.reference_regression(ds, cfg)
+    Yh = ref if ref is not None else fresh["Yh"]
+    msg, _, _ = X4.optimum_message(r["est"], ds, Yh, cfg["a"], cfg["k"], 1e-9)
+    if msg:
+        return msg, True
+    if cfg["a"] in (0.0, 1.0):
+        msg, _ = limits_oracle(ds, cfg, [dict(a=cfg["a"], rec=r)])
+        if msg:
+            return msg, True
+    diff = X4.state_diff(X4.state_of(r["est"]), X4.state_of(fresh["est"]))
+    if diff:
+        return "fitted state of the re-used object differs from a fresh estimator's: " + "; ".join(diff[:6]), False
+    return None, True
+
+
+def run_history(hist, on_step=None):
+    """Take one estimator object through the steps; after each step evaluate C04 on it.
+    Returns (message, found_input, step index) of the first failure or (None, True, None)."""
+    est, cache = None, {}
+    for si, (ds, cfg) in enumerate(hist["steps"]):
+        fresh = fit(ds, cfg)
+        r = fit(ds, cfg, est=est, cache=cache)
+        msg, found = history_step_message(ds, cfg, r, fresh)
+        if msg:
+            return msg, found, si
+        if "error" in r or "error" in fresh:
+            return None, True, None
+        est = r["est"]
+        if on_step:
+            on_step(si, ds, cfg, r)
+    return None, True, None
+
+
+def mid_solver_case(rng, big):
+    ds = X4.gen_mid_dataset(rng, big)
+    kmax = min(ds["n"], ds["m"])
+    k = rng.randint(1, max(1, min(4, int(0.8 * kmax - 1e-9) if big else kmax - 1)))
+    base = dict(a=0.5, k=k, space=rng.choice(["auto", "feature", "auto"] if big else ["auto", "feature", "sample"]),
+                solver="auto" if big else rng.choice(["arpack", "randomized", "randomized"]),
+                reg=rng.choice(["ridge", "default", "linreg"]), alpha=rng.choice([1e-2, 0.1, 1.0]), y1d=False)
+    grid = [0.0, 0.1, 0.3, 0.5, 0.7, 0.9, 1.0]
+    return ds, base, grid
+
+
 def run(ctx):
     po = C.proof_obligations(ctx.prop)
     rng = ctx.rng
     ndata = 90 if ctx.quick else 1500
     npts = 11 if ctx.quick else 21
-    writer = P.CoqCases(autoflush=False)
-    stats = dict(families={}, regressors={}, spaces={}, grid_points=npts, grid_fits=0,
+    writer = X4.CoqCases4(autoflush=False)
+    own_cases = {}               # tag -> (ds, cfg): losses of the fit's own subspace, own route
+    stats = dict(families={}, regressors={}, spaces={}, representations={}, solvers={}, grid_points=npts, grid_fits=0,
                  monotone_pairs_skipped_near_crossing=0, competitor_kinds={}, competitors=0,
                  own_vs_impl_skipped={}, datasets_skipped={}, pca_limit_checked=0, regression_limit_checked=0,
                  k_hist={})
@@ -185,14 +310,29 @@ def run(ctx):
                                  # involve W on new data are route dependent, only T-based ones compared
     cid = 0
     n_oracle = 0
-    for di in range(ndata):
-        ds = P.gen_dataset(rng, ctx.quick, family=FAMS[di % len(FAMS)])
+    nrepr = 50 if ctx.quick else 400
+    nsolv = 40 if ctx.quick else 300
+    jobs = [("main", None)] * ndata + [("repr", None)] * nrepr + [("solver", None)] * nsolv
+    for di, (job, _) in enumerate(jobs):
+        if job == "repr":
+            ds = X4.gen_repr_dataset(rng, ctx.quick)
+            rp = ds["repr"]
+            for key in ("dtype", "layout", "ydtype"):
+                stats["representations"][rp[key]] = stats["representations"].get(rp[key], 0) + 1
+            stats["representations"]["scaled"] = stats["representations"].get("scaled", 0) + (rp["scale"] != 1.0 or rp["yscale"] != 1.0)
+        else:
+            ds = P.gen_dataset(rng, ctx.quick, family=FAMS[di % len(FAMS)] if job == "main" else rng.choice(["tall", "wide", "square", "tall"]))
         g = P.np_rng(rng)
-        base = P.gen_config(rng, ds, reg=rng.choice(REGS))
-        base["y1d"] = False
+        base = P.gen_config(rng, ds, reg=rng.choice(REGS if job != "repr" else REGS + ["prefit", "pre_noW"]))
+        base["y1d"] = (job == "repr" and ds["p"] == 1 and rng.random() < 0.5)
         base["solver"] = "full"
+        if job == "solver":
+            base["solver"] = rng.choice(["arpack", "randomized", "randomized", "auto"])
+            if base["solver"] == "arpack":
+                base["k"] = rng.randint(1, min(ds["n"], ds["m"]) - 1)
+            stats["solvers"][base["solver"]] = stats["solvers"].get(base["solver"], 0) + 1
         grid = [float(x) for x in np.linspace(0.0, 1.0, npts)]
-        msg, pts, skipped = grid_oracle(ds, base, grid)
+        msg, pts, skipped = grid_oracle(ds, base, grid, stats)
         n_oracle += 1
         if isinstance(skipped, str):          # regressor oracle unusable on this data set
             stats["datasets_skipped"][skipped] = stats["datasets_skipped"].get(skipped, 0) + 1
@@ -210,12 +350,15 @@ def run(ctx):
         msg, done = limits_oracle(ds, base, pts)
         stats["pca_limit_checked"] += done["pca"]
         stats["regression_limit_checked"] += done["regression"]
+        stats["regression_limit_skipped_noise_above_tol"] = stats.get("regression_limit_skipped_noise_above_tol", 0) + done.get("regression_skipped_noise_above_tol", 0)
         if msg:
             report(ctx, "C04 fails on the implementation: " + msg,
                                dict(case=case_replay(ds, base, dict(kind="grid", grid=grid))), found_input=True)
             continue
+        if len(pts) < 3:
+            continue
         # optimality at three grid points (both ends of the open interval and one inside)
-        chosen = sorted(set([rng.randrange(1, npts - 1), rng.randrange(1, npts - 1), rng.choice([0, npts - 1])]))
+        chosen = sorted(set([rng.randrange(1, len(pts) - 1), rng.randrange(1, len(pts) - 1), rng.choice([0, len(pts) - 1])]))
         for gi in chosen:
             q = pts[gi]
             a, rec = q["a"], q["rec"]
@@ -246,20 +389,89 @@ def run(ctx):
                 stats["own_vs_impl_skipped"][gate] = stats["own_vs_impl_skipped"].get(gate, 0) + 1
                 continue
             est = rec["est"]
-            obs, _ = P.observe(est, ds, rec["Ym"])
+            obs, _ = P.observe(est, X4.obs_ds(ds), rec["Ym"])
+            own_name = None
             if not P.is_sample(ds, cfg):
                 # the fit ran in feature space: tie it to its own route's programs as well
                 envf, _, _, _ = P.build_env(ds, rec["Ym"], rec["Yh"], rec["W"], cfg, False, mn=mn)
-                writer.add(cid, ds["n"], ds["m"], ds["p"], k, ds["q"], False, envf, obs)
-                route_cases[cid] = (ds, cfg)
+                own_name = writer.add(cid, ds["n"], ds["m"], ds["p"], k, ds["q"], False, envf, obs)
+                route_cases[cid] = (ds, cfg, "feature space")
                 cid += 1
                 loss_only.add(cid)
             name = writer.add(cid, ds["n"], ds["m"], ds["p"], k, ds["q"], True, env, obs)
+            # the three losses of the subspace of the route the fit took (ownq_prog), one by one
+            writer.add_extra(("own", cid), "c04_own_report %s %s %s %s %s %s %s %s" % (
+                C.fl(P.RTOL), C.fl(1e-9 * scale), C.fl(1e-7), own_name or name,
+                writer.mat(np.array([[L_impl]])), writer.mat(np.array([[q["lx"]]])),
+                writer.mat(np.array([[q["ly"]]])), writer.mat(np.array([[q["lY"]]]))))
+            own_cases[("own", cid)] = (ds, cfg)
             writer.add_extra(cid, "c04_report %s %s %s %s %s %s %s" % (
                 C.fl(P.RTOL), C.fl(1e-9 * scale), C.fl(P.EPS_HYP), name,
                 writer.mats([Q for _, Q in comps]), writer.mat(np.array([[L_impl]])),
                 writer.mats([np.array([[lq]]) for lq in comp_losses])))
             cases[cid] = (ds, cfg, [nm for nm, _ in comps], comps)
+            cid += 1
+        writer.maybe_flush()
+    # ---- truncated solvers on mid-size matrices and on > 500 rows ('auto' -> randomized): Python oracle
+    nmid = 18 if ctx.quick else 150
+    stats["mid_solver"] = dict(datasets=0, big=0, fits=0, resolved={})
+    for i in range(nmid):
+        big = (i % 6 == 5)
+        ds, base, grid = mid_solver_case(rng, big)
+        msg, pts, skipped = grid_oracle(ds, base, grid, stats)
+        n_oracle += 1
+        if isinstance(skipped, str):
+            stats["datasets_skipped"][skipped] = stats["datasets_skipped"].get(skipped, 0) + 1
+            continue
+        ms = stats["mid_solver"]
+        ms["datasets"] += 1
+        ms["big"] += big
+        ms["fits"] += len(pts)
+        for q in pts[:1]:
+            fs = q["rec"]["est"].fit_svd_solver_
+            ms["resolved"][fs] = ms["resolved"].get(fs, 0) + 1
+        stats["grid_fits"] += len(pts)
+        if msg:
+            report(ctx, "C04 fails on the implementation: " + msg,
+                   dict(case=case_replay(ds, base, dict(kind="grid", grid=grid))), found_input=True)
+    # ---- histories: one estimator object, several set_params / fit steps on changing data
+    nhist = 70 if ctx.quick else 500
+    stats["histories"] = dict(run=0, steps=0, modes={}, regmodes={}, tied_to_model=0, skipped={})
+    for hi in range(nhist):
+        hist = X4.gen_history(rng, ctx.quick)
+        hs = stats["histories"]
+        hs["run"] += 1
+        hs["modes"][hist["mode"]] = hs["modes"].get(hist["mode"], 0) + 1
+        hs["regmodes"][hist["regmode"]] = hs["regmodes"].get(hist["regmode"], 0) + 1
+        last = {}
+
+        def on_step(si, ds, cfg, r, last=last):
+            stats["histories"]["steps"] += 1
+            if si == len(hist["steps"]) - 1:
+                # the last step is also tied to the model of ITS parameters and data
+                sample = P.is_sample(ds, cfg)
+                env, mn, S_full, _ = P.build_env(ds, r["Ym"], r["Yh"], r["W"], cfg, sample)
+                gate = P.gate(mn, S_full, cfg["k"], sample=sample)
+                if gate is None and not sample:
+                    gate = P.gate(mn, P.top_eig(mn["Kt"])[0], cfg["k"], sample=True)
+                if gate is not None:
+                    stats["histories"]["skipped"][gate] = stats["histories"]["skipped"].get(gate, 0) + 1
+                    return
+                obs, _ = P.observe(r["est"], ds, r["Ym"])
+                last["case"] = (ds["n"], ds["m"], ds["p"], cfg["k"], ds["q"], sample, env, obs)
+        msg, found, si = run_history(hist, on_step)
+        n_oracle += 1
+        if msg:
+            report(ctx, ("C04 fails on the implementation after a history on one estimator object (step %d of %d, %s, regressor %s): "
+                         % (si + 1, len(hist["steps"]), hist["mode"], hist["steps"][si][1]["reg"]) + msg) if found else
+                   ("correspondence 'a refit depends on parameters and data only' broken (step %d of %d, %s): " % (si + 1, len(hist["steps"]), hist["mode"]) + msg),
+                   dict(case=dict(kind="history", history=X4.hist_to_json(hist), step=si)), found_input=found)
+            continue
+        if "case" in last:
+            writer.add(cid, *last["case"])
+            route_cases[cid] = (hist["steps"][-1][0], hist["steps"][-1][1],
+                                "last step of a %d-step history on one object, %s" % (len(hist["steps"]), hist["mode"]))
+            stats["histories"]["tied_to_model"] += 1
             cid += 1
         writer.maybe_flush()
     reports, broken, extras = P.run_cases(ctx.prop, writer)
@@ -293,7 +505,20 @@ def run(ctx):
             report(ctx, "correspondence PCovR loss model vs implementation broken: %s %s" % (bad, bad_pc),
                                dict(case=case_replay(ds, cfg, dict(kind="model", values=vals)),
                                     correspondence="c04_report / pc_report (Model/PCovR.v)"), found_input=False)
-    for c, (ds, cfg) in route_cases.items():
+    own_agree = 0
+    for tag, (ds, cfg) in own_cases.items():
+        if tag not in extras:
+            continue
+        flags, vals, _ = extras[tag]
+        bad = [X4.OWN_LABELS[i] for i, b in enumerate(flags) if not b]
+        if not bad and len(flags) == len(X4.OWN_LABELS):
+            own_agree += 1
+        else:
+            report(ctx, "correspondence PCovR own-subspace losses (model, route of the fit) vs implementation broken: %s" % bad,
+                   dict(case=case_replay(ds, cfg, dict(kind="model", values=vals)),
+                        correspondence="c04_own_report (Model/PCovRC04.v)"), found_input=False)
+    stats["own_subspace_losses_agree"] = own_agree
+    for c, (ds, cfg, label) in route_cases.items():
         r = reports.get(c)
         if r is None:
             continue
@@ -302,7 +527,7 @@ def run(ctx):
         else:
             bad_o = [P.OUTPUT_NAMES[i] for i, b in enumerate(r["ok_out"]) if not b]
             bad_h = [P.RESIDUAL_NAMES[i] for i, b in enumerate(r["ok_hyp"]) if not b]
-            report(ctx, "correspondence PCovR model vs implementation broken (feature space): outputs %s, oracle hypotheses %s" % (bad_o, bad_h),
+            report(ctx, "correspondence PCovR model vs implementation broken (%s): outputs %s, oracle hypotheses %s" % (label, bad_o, bad_h),
                                dict(case=case_replay(ds, cfg, dict(kind="model")), correspondence="pc_report (Model/PCovR.v)"),
                                found_input=False)
     for txt in broken:
@@ -342,9 +567,19 @@ def run(ctx):
 
 def replay(ctx, obj):
     c = obj["case"]
-    ds = P.ds_from_json(c["dataset"])
+    if c.get("kind") == "history":
+        hist = X4.hist_from_json(c["history"])
+        msg, found, si = run_history(hist)
+        print("replay:", ("step %d: %s" % (si + 1, msg)) if msg else "property holds on this history now")
+        return 1 if msg else 0
+    ds = X4.ds_from_json(c["dataset"])
     cfg = c["config"]
     kind = c.get("kind", "grid")
+    if kind == "history":
+        hist = X4.hist_from_json(c["history"])
+        msg, found, si = run_history(hist)
+        print("replay:", ("step %d: %s" % (si + 1, msg)) if msg else "property holds on this history now")
+        return 1 if msg else 0
     if kind == "competitor":
         r = fit(ds, cfg)
         if "error" in r:
